@@ -214,7 +214,14 @@ def bs_cases(ctx, rng, lits, descr):
                         continue
                     if md == "clip":
                         xe = min(max(x, elb), eub)
-                if t[degree] < t[-degree - 1]:
+                # an inner knot that coincides with a boundary knot (explicitly, or a quantile of tied data) gives the boundary a
+                # multiplicity of degree+2: the spline space is then discontinuous at that boundary and the value AT (and, when
+                # extending, beyond) the boundary is a convention -- the code uses the degenerate closed interval, scipy the
+                # left limit. Both are partitions of unity; the reference comparison is restricted to where it is well defined.
+                degenerate_hi = t[-degree - 2] == t[-degree - 1]
+                degenerate_lo = t[degree + 1] == t[degree]
+                ambiguous_pt = (degenerate_hi and xe >= t[-degree - 1]) or (degenerate_lo and xe <= t[degree])
+                if t[degree] < t[-degree - 1] and not ambiguous_pt:
                     spl = BSpline(t, np.eye(nb), degree, extrapolate=True)
                     full = np.asarray(spl(xe), dtype=float)
                     want = full if intercept else full[1:]
